@@ -79,7 +79,7 @@ func genReplicas(t *rapid.T, nmin, nmax int, valueOf func(t *rapid.T, replica, i
 	n := rapid.IntRange(nmin, nmax).Draw(t, "replicas")
 	mode := rapid.SampledFrom([]string{"perturbed", "perturbed", "perturbed", "identical", "disjoint", "free"}).Draw(t, "mode")
 	interval := rapid.SampledFrom([]int64{1000, 5000, 10000, 15000, 30000, 60000}).Draw(t, "interval")
-	base := rapid.Int64Range(1, 1_000_000).Draw(t, "base")
+	base := rapid.Int64Range(-1_000_000, 1_000_000).Draw(t, "base") // timestamps at and below zero are legal
 	points := rapid.IntRange(1, 40).Draw(t, "points")
 	rs := make([][]smpl, n)
 	switch mode {
